@@ -3,6 +3,20 @@ import json, os
 VERIF = os.path.dirname(os.path.dirname(os.path.abspath(__file__)))
 
 CHECKS = {
+    "C07": dict(
+        category="model_checking",
+        text="Parallel.tla models the coordinator (find_stale_sccs rounds, arbitrary free-worker choice, arbitrary batching, one reply consumed at a "
+             "time) and N workers (interface phase with dependency interfaces read from the COMMITTED store, commit, reply, implementation phase, "
+             "commit, reply); TLC checks ReadsCommitted, NoPrematureSubmit, ErrorsOnce, AtEnd (termination with every stale SCC committed and "
+             "reported once) for N in {2,3} over three DAG shapes, cold and warm, and rejects two mutants. TLC simulation behaviours become release "
+             "policies for REAL -n N builds whose worker replies are gated, so the schedule is chosen, not incidental: output and status are "
+             "compared with the sequential build, each interface reply with the committed store, the cache left behind with warm parallel and "
+             "warm sequential runs vs cold; coordinator event streams are validated against Trace_Parallel.tla.",
+        design_ref="DESIGN.md 5.C07",
+        note="N <= 3 in the model (thorough real runs up to 8), 6-SCC graphs; batch composition follows the real size hints; cross-file message "
+             "order not compared; in-process coordinator with test fixtures, real worker subprocesses",
+        technique="TLA+ spec (Parallel.tla) model-checked with TLC; TLC behaviours replayed as gated schedules on real parallel builds against the sequential build; trace validation (Trace_Parallel.tla)",
+    ),
     "C10": dict(
         category="exploration",
         text="Context.tla defines the context space (8 hash seeds x 6 orders of the file arguments x 13 sequences of unrelated prior builds in the "
